@@ -450,7 +450,12 @@ pub fn get_best_move_until_stop(
     continue_running: &AtomicBool,
     max_depth: Option<u8>,
 ) -> Option<Move> {
-    let mut found_move = None;
+    // Fall back to a legal move in case the search is stopped before depth 1 completes
+    let mut found_move = {
+        let mut moves = ArrayVec::new();
+        game.clone().get_moves(&mut moves, true);
+        moves.first().copied()
+    };
 
     let mut history = [0; 64 * 12];
 
